@@ -182,7 +182,10 @@ PROPS["C10"] = {
                   "queue, ClosedResourceError impossible under I_sig; never suspends. Signal._subscribe is verified as a bracket (append, yield, "
                   "remove of the same stream on every exit). stream_events is verified up to its yield: 'the listening starts when this function is called' - "
                   "on entry, with no suspension point passed, this call's send stream is in the subscriber list of every given (bound) signal; wait_event "
-                  "enters it before its first suspension; filter_events yields exactly the received events the filter accepts. The exit half of stream_events: bounded harness.",
+                  "enters it before its first suspension; filter_events yields exactly the received events the filter accepts. Exit half of stream_events: proved "
+                  "that at the yield its exit stack holds the generator's aclose, both stream ends and exactly one _subscribe bracket per given signal (so "
+                  "that, by A-XS and the verified bracket, leaving the block in any way unsubscribes this call's stream from every signal and closes it); the "
+                  "unwinding itself (library code, symbolic depth) is bounded by the harness.",
     "level_note": "Not counted as proved: the exit half of stream_events (bounded, scope in evidence). Trusted: A-MS, A-MS0, A-CM, A-SEQ, A-WR, A-SUB1.",
     "design_ref": "DESIGN.md section 5 (C10)",
     "technique": "contract-based deductive verification of Signal.dispatch and Signal._subscribe (pyvc + z3) + bounded model-based harness for the stream_events/wait_event wrappers",
